@@ -2,16 +2,20 @@
 (* step st kind inputs = (st', expected observations).                                   *)
 (* Kinds flagged by is_monitor have inputs that are *observed* on the implementation and  *)
 (* a constant expected output: a mismatch there is a property violation on the real code. *)
-From VD Require Import Base.Words Model.Layout.
+From VD Require Import Base.Words Model.Layout Model.Queue Extract.QueueIO Extract.QueueMon.
 
 Inductive mstate :=
 | MNone
-| MTag (n : N).
+| MTag (n : N)
+| MQueue (q : qstate).
 
 Definition bad : list N := [77777].
 
+(* diagnostic kinds: private driver state; a mismatch is reported but is no verdict by itself *)
+Definition is_diag (k : N) : bool := (k =? 140).
+
 Definition is_monitor (k : N) : bool :=
-  (k =? 1) || (k =? 2) || (k =? 612).
+  (k =? 1) || (k =? 2) || (k =? 612) || ((150 <=? k) && (k <? 160)).
 
 Definition dir_reads (d : N) : bool := (d =? 0) || (d =? 2).
 Definition dir_writes (d : N) : bool := (d =? 1) || (d =? 2).
@@ -32,4 +36,15 @@ Definition step (st : mstate) (k : N) (ins : list N) : mstate * list N :=
              [b2n (regions_ok_b (n2b legacy) n desc drv dev a1 p1 a2 p2
                    && dir_reads d1 && dir_writes d2)]
          | _ => bad end)
+  else
+  (* ---- virtqueue core (C01-C05, C07, C19) ---- *)
+  if k =? 100 then
+    match ins with
+    | [size; ind; ev] => (MQueue (qnew size (n2b ind) (n2b ev)), [])
+    | _ => (st, bad) end
+  else if (150 <=? k) && (k <? 160) then (st, queue_monitor k ins)
+  else if (100 <? k) && (k <? 150) then
+    match st with
+    | MQueue q => let '(q', o) := queue_step q k ins in (MQueue q', o)
+    | _ => (st, bad) end
   else (st, bad).
